@@ -1,6 +1,7 @@
 """SH1 -- shape typing of the broadcasting kernel (C04)."""
 import itertools
 
+import ast
 from ..project import AnalysisError, loc
 from ..shape import (AArr, AScal, DataDependent, Interp, ShapeError,
                      Unsupported, bshape)
@@ -651,7 +652,16 @@ def _hyp_ctor(it, cls, args, kw):
     if len(sh) < und:
         raise ShapeError(f"{cls.name} built from an array of shape {sh}: "
                          f"fewer than its {und} unit axes")
-    o = AObj(cls, proj=AArr(sh), unit_ndims=und)
+    if sh == a0.shape:
+        pd = a0                      # the object keeps the array it is given
+    elif model in AFFINE_MODELS and it.homt is not None \
+            and getattr(a0, "hom", None) is not None \
+            and (a0.hom.invariant or a0.hom.wild):
+        from ..hom import Hom
+        pd = AArr(sh, Hom((), False))   # (1, x): a fixed representative
+    else:
+        pd = AArr(sh)
+    o = AObj(cls, proj=pd, unit_ndims=und)
     aund = HYP_AUX.get(cls.name, 0)
     if aund:
         m = it.find_method(o, "_compute_aux_data")
@@ -1010,7 +1020,8 @@ def _cp1_ctor(it, cls, args, kw):
     if len(sh) < unit:
         raise ShapeError(f"{name} built from an array of shape {sh}: fewer "
                          f"than its {unit} unit axes")
-    return AObj(cls, proj=AArr(sh), unit_ndims=unit)
+    return AObj(cls, proj=a0 if sh == a0.shape else AArr(sh),
+                unit_ndims=unit)
 
 
 def _flat(O):
@@ -1176,7 +1187,7 @@ def _proj_ctor(it, cls, args, kw):
     if len(sh) < und:
         raise ShapeError(f"{name} built from an array of shape {sh}: fewer "
                          f"than its {und} unit axes")
-    o = AObj(cls, proj=AArr(sh), unit_ndims=und)
+    o = AObj(cls, proj=a0 if sh == a0.shape else AArr(sh), unit_ndims=und)
     if aund:
         aux = kw.get("aux_data", args[1] if len(args) > 1 else None)
         o.aux_ndims = aund
@@ -1318,3 +1329,278 @@ def rule_sh8(ctx, only=None):
     it.project = ctx.p
     it.rel_prefix = {LIE: "", CORE: "utils"}
     return _run_object_table(ctx, "SH8", it, _sh8_table(), LIE, only)
+
+
+# ---------------------------------------------------------------------------
+# HOM1: homogeneity types -- which results are independent of the scale of
+# the homogeneous coordinates they are computed from
+
+# classes whose data is a list of points: every row (all axes but the
+# last) is a homogeneous vector with its own arbitrary non-zero scale
+HOM_ROW_CLASSES = {"Point", "IdealPoint", "PointPair", "Geodesic", "Segment",
+                   "Subspace", "Polygon", "Horosphere", "Hyperplane",
+                   "PointCollection", "CP1Point", "DualPoint", "CP1Disk"}
+# data that is a definite matrix / carries meaning in its sign: no rescaling
+HOM_FIXED_CLASSES = {"Isometry", "Transformation", "BoundaryArc",
+                     "HorosphereArc", "TangentVector"}
+# results that are the stored representative (or an orientation encoded in
+# it) by definition
+HOM_VARIANT_BY_DESIGN = {
+    "Point.coords(Model.PROJECTIVE)":
+        "projective coordinates are the stored representative",
+    "Point.projective_coords": "the stored representative",
+    "PointPair.endpoint_projective_coords": "the stored representatives",
+    "Segment.get_end_pair": "returns the stored rows (as_points=False)",
+    "projective_coords": "maps affine to homogeneous coordinates",
+    "projective_coords(chart 1)": "maps affine to homogeneous coordinates",
+}
+# functions that may add up rows with independent scales: only the span of
+# the rows is used afterwards
+HOM_ROWSUM_OK = {
+    "_data_with_dual": "the sum only supplies one more vector of the span "
+                       "for Gram-Schmidt; the dual depends on the span alone",
+}
+# plain-array arguments that are homogeneous coordinates (label -> indices)
+HOM_ARRAY_ARGS = {
+    "projective_to_spherical": (0,),
+    "affine_coords": (0,),
+    "affine_coords(chart 1)": (0,),
+}
+
+
+def _run_hom_table(ctx, rid, it, table, home_rel, complex_scale=False,
+                   only=None):
+    from .. import hom as HM
+    from ..shape import AObj, AttributeErrorSim, RaiseSim
+    import os
+    r = ctx.r
+    debug = os.environ.get("SA_HOM_DEBUG")
+    O = ("a",)
+    stats = {"proved": 0, "refuted": 0, "undecided": 0, "rows": 0}
+
+    def flat(v, pre=""):
+        if isinstance(v, (tuple, list)):
+            for i, x in enumerate(v):
+                yield from flat(x, f"{pre}[{i}]")
+        elif isinstance(v, (AArr, AScal)):
+            yield pre or "result", v
+
+    for label, spec, meth, args, kw, want in table:
+        cname = spec["cls"]
+        if only is not None and f"{cname}.{meth}" not in only:
+            continue
+        if cname is None:
+            cls = None
+            f = ctx.p.get_function(home_rel, meth)
+        else:
+            cls = ctx.p.get_class(spec.get("rel", home_rel), cname)
+            f = ctx.p.find_method(cls, meth)
+            if f is None:
+                raise AnalysisError(
+                    f"anchor method {cname}.{meth} has vanished")
+        it.owner.setdefault(id(f.node), it._prefix_of(f.module.rel))
+        r.analysed(f)
+        stats["rows"] += 1
+        names = []
+
+        def tag(nm, cn, part=""):
+            if cn in HOM_FIXED_CLASSES:
+                return HM.INV
+            v = nm + part
+            if complex_scale:
+                HM.COMPLEX_VARS.add(v)
+            names.append(v)
+            return HM.var(v, indep=cn in HOM_ROW_CLASSES)
+
+        def mk(sp=spec, c=cls, nm="self"):
+            Oo = sp.get("outer", O)
+            cn = sp["cls"]
+            return AObj(c, proj=AArr(Oo + sp["proj"], tag(nm, cn)),
+                        aux=AArr(Oo + sp["aux"], tag(nm, cn, ".aux"))
+                        if "aux" in sp else None,
+                        dual=AArr(Oo + sp["dual"], tag(nm, cn, ".dual"))
+                        if "dual" in sp else None, unit_ndims=sp["und"],
+                        aux_ndims=sp.get("aund", 0),
+                        dual_ndims=sp.get("dund", 0))
+
+        def arg(x, k):
+            if x == "@same":
+                return mk(nm=f"arg{k}")
+            if x == "@outer":
+                return AArr(O, HM.INV)
+            if isinstance(x, dict) and "arr" in x:
+                if k in HOM_ARRAY_ARGS.get(label.replace(" [complex]", ""),
+                                           ()):
+                    return AArr(O + x["arr"], tag(f"arg{k}", "Point"))
+                return AArr(O + x["arr"], HM.INV)
+            if isinstance(x, dict):
+                return mk(x, ctx.p.get_class(x.get("rel", home_rel),
+                                             x["cls"]), nm=f"arg{k}")
+            return x
+
+        runs = []
+
+        def one_path():
+            t = HM.Tracker()
+            t.it = it
+            it.homt = t
+            a = [arg(x, k) for k, x in enumerate(args)]
+            got = it.call_node(
+                f.node, ([] if spec.get("static") or cls is None
+                         else [mk()]) + a,
+                {k: arg(v, k) for k, v in kw.items()})
+            runs.append((t, got))
+
+        failed = None
+        try:
+            it.explore_paths(one_path)
+        except (Unsupported, ShapeError, DataDependent, AttributeErrorSim,
+                RaiseSim) as e:
+            failed = str(e)
+        finally:
+            it.homt = None
+        inst = f"{rid}:{label}"
+        verdict = "proved"
+        detail = ""
+        events = []
+        for t, got in runs:
+            events.extend(t.events)
+            for where, v in flat(got):
+                h = v.hom
+                if h is None:
+                    if verdict == "proved":
+                        verdict = "undecided"
+                        dr = sorted(set(t.dropped))
+                        detail = (f"{where}: scaling not determined" + (
+                            f" (first lost in {dr[0][0]}, line {dr[0][1]})"
+                            if dr else ""))
+                elif not (h.invariant or h.wild):
+                    verdict = "refuted"
+                    detail = (f"{where} is multiplied by {h!r} when the "
+                              f"homogeneous coordinates are rescaled")
+            if not list(flat(got)) and verdict == "proved":
+                verdict = "object"
+            if t.tainted is not None and verdict == "proved":
+                verdict, detail = "undecided", t.tainted
+        if failed is not None and verdict in ("proved", "object"):
+            verdict, detail = "undecided", failed
+        hard = [ev for ev in events if ev["kind"] in ("E2", "E5")
+                or (ev["kind"] == "E3" and (
+                    ev["fn"] is None or ev["fn"].name not in HOM_ROWSUM_OK))]
+        if debug:
+            print(rid, label, verdict, detail, [(e["kind"], e["fn"].name
+                  if e["fn"] else None, e["stmt"].lineno) for e in events])
+        if hard:
+            ev = hard[0]
+            fn = ev["fn"]
+            rel = next((k for k, v in it.rel_prefix.items()
+                        if v == ev["prefix"]), home_rel)
+            line = getattr(ev["stmt"], "lineno", 0)
+            txt = ast.unparse(ev["stmt"])[:120] if ev["stmt"] is not None \
+                else ""
+            r.violation(
+                rid, f"{rel}::{fn.name if fn else '?'}|{ev['kind']}|"
+                     f"{' '.join(txt.split())[:80]}",
+                f"{rel}:{line}", txt,
+                f"evaluating {label} (call path {' > '.join(ev['stack'])}): "
+                f"{ev['msg']}. The result depends on "
+                "which representative of a projective point happens to be "
+                "stored", instance=inst)
+            stats["refuted"] += 1
+            continue
+        base_label = label.replace(" [complex]", "")
+        if verdict == "refuted" and base_label in HOM_VARIANT_BY_DESIGN:
+            r.ok(rid, inst, loc(f, f.node), "",
+                 "scale-dependent by definition: "
+                 + HOM_VARIANT_BY_DESIGN[base_label])
+            continue
+        if verdict == "refuted":
+            stats["refuted"] += 1
+            r.violation(
+                rid, f"{f.fq}|{label}|variant", loc(f, f.node), label,
+                f"{detail}: the same point given by another representative "
+                "(coordinates multiplied by a non-zero, possibly negative "
+                "scalar) yields a different result", instance=inst)
+        elif verdict == "proved":
+            stats["proved"] += 1
+            r.ok(rid, inst, loc(f, f.node), "",
+                 "every returned array is invariant under independent "
+                 "rescaling of " + (", ".join(sorted(set(names))) or
+                                    "the inputs"))
+        elif verdict == "object":
+            r.ok(rid, inst, loc(f, f.node), "",
+                 "returns an object (projective data; no scale-free array "
+                 "to judge); no scale-dependent transcendental function or "
+                 "row sum on the way")
+        else:
+            stats["undecided"] += 1
+            r.note(rid, loc(f, f.node), label, f"not judged: {detail}")
+    for k, v in stats.items():
+        r.extra[f"{rid}_{k}"] = r.extra.get(f"{rid}_{k}", 0) + v
+    return stats
+
+
+def rule_hom1(ctx, parts=("hyp", "proj", "cp1"), only=None, min_proved=0):
+    r = ctx.r
+    r.rule("HOM1", "homogeneity types: every array is tagged with how it "
+                   "scales (|s|^m * sign/phase(s)^n per input object) when "
+                   "the homogeneous coordinates of an input are multiplied "
+                   "by s; tags are propagated through the interpreted "
+                   "methods by exact transfer functions (products add, "
+                   "quotients subtract, sqrt halves, abs drops the sign, "
+                   "sums need equal tags ...). A returned coordinate / "
+                   "distance / radius / angle array must be tagged "
+                   "invariant; a known non-trivial tag, a transcendental "
+                   "function of a scale-dependent quantity, or a sum over "
+                   "rows that carry independent scales is a violation; an "
+                   "unknown tag is no verdict")
+    core = ctx.p.module_by_rel(CORE)
+    proj = ctx.p.module_by_rel(PROJ_REL)
+    tot = {"proved": 0, "refuted": 0, "undecided": 0, "rows": 0}
+
+    def add(s):
+        for k in tot:
+            tot[k] += s[k]
+    if "hyp" in parts:
+        hyp = ctx.p.module_by_rel(HYP)
+        lie = ctx.p.module_by_rel(LIE)
+        it = Interp(hyp.tree, extra_trees=(("utils", core.tree),
+                                           ("projective", proj.tree),
+                                           ("lie", lie.tree)))
+        it.project = ctx.p
+        it.rel_prefix = {HYP: "", CORE: "utils", PROJ_REL: "projective",
+                         LIE: "lie"}
+        it.ctor_model = _hyp_ctor
+        add(_run_hom_table(ctx, "HOM1", it, _sh5_table(), HYP, only=only))
+    if "proj" in parts:
+        it = Interp(proj.tree, extra_trees=(("utils", core.tree),))
+        it.project = ctx.p
+        it.rel_prefix = {PROJ_REL: "", CORE: "utils"}
+        it.ctor_model = _proj_ctor
+        add(_run_hom_table(ctx, "HOM1", it, _sh7_table(), PROJ_REL,
+                           only=only))
+    if "proj-cx" in parts:
+        it = Interp(proj.tree, extra_trees=(("utils", core.tree),))
+        it.project = ctx.p
+        it.rel_prefix = {PROJ_REL: "", CORE: "utils"}
+        it.ctor_model = _proj_ctor
+        add(_run_hom_table(ctx, "HOM1", it, [
+            (lab + " [complex]",) + tuple(rest)
+            for lab, *rest in _sh7_table()
+            if "coords" in lab or "chart" in lab], PROJ_REL,
+            complex_scale=True, only=only))
+    if "cp1" in parts:
+        cp1 = ctx.p.module_by_rel(CP1)
+        it = Interp(cp1.tree, extra_trees=(("utils", core.tree),
+                                           ("projective", proj.tree)))
+        it.project = ctx.p
+        it.rel_prefix = {CP1: "", CORE: "utils", PROJ_REL: "projective"}
+        it.ctor_model = _cp1_ctor
+        add(_run_hom_table(ctx, "HOM1", it, _sh6_table(), CP1,
+                           complex_scale=True, only=only))
+    if tot["proved"] < min_proved:
+        raise AnalysisError(
+            f"HOM1 proved only {tot['proved']} results invariant "
+            f"(expected at least {min_proved}): the interpreter no longer "
+            "follows the coordinate methods")
+    return tot
